@@ -9,7 +9,7 @@
    * Engine half (NOT a Coq statement, validated on every run by harness/props/C04.py): SQLite accepts the text and
      returns the same rows as a maximally explicit text written without pypika, on two seeded databases.
    This file holds only statements, closing [exact]s and Print Assumptions. *)
-From PV Require Import Base Crit gen.TermsTable Terms Page gen.QueryTable Query QueryCorr Parse C02Model C02Expected C02Frag gen.C04Table Select.
+From PV Require Import Base Crit gen.TermsTable Terms Page gen.QueryTable Query QueryCorr Parse C02Model C02Frag gen.C04Table Select.
 From PV Require Import lemmas.ParseMono lemmas.ParsePrint lemmas.C02Lemmas lemmas.C02Final.
 From PV Require Import lemmas.SelectLemmas lemmas.SelectReader lemmas.SelectFrag lemmas.SelectText lemmas.SelectMono.
 From Coq Require Import Lia Arith.
@@ -133,12 +133,12 @@ Theorem C04_segments_list_the_items :
   /\ (forall k kk srcs ci aref l ss, seg_groups k kk srcs ci aref l = Ok ss <->
         Forall2 (fun y s => match (if k_gba k then aref y else None) with
                             | Some a => s = fq (or_ostr (aq (kc k)) (q (kc k))) a
-                            | None => ritem kk srcs (ci false false) y = Ok s end) l ss)
+                            | None => ritem (mk_k (kc kk) (k_abs kk) true) srcs (ci false clause_subq_groupby) y = Ok s end) l ss)
   /\ (forall k kk srcs ci aref l ss, seg_orders k kk srcs ci aref l = Ok ss <->
         Forall2 (fun yd s => exists a,
                    match aref (fst yd) with
                    | Some al => a = fq (or_ostr (aq (kc k)) (q (kc k))) al
-                   | None => ritem kk srcs (ci false false) (fst yd) = Ok a end
+                   | None => ritem kk srcs (ci false clause_subq_orderby) (fst yd) = Ok a end
                    /\ s = match snd yd with Some d' => a ++ " " ++ order_text d' | None => a end) l ss).
 Proof.
   split; [exact seg_items_spec|]. split; [exact ritem_IT|]. split; [exact seg_from_spec|].
